@@ -1,5 +1,6 @@
 import ShootVerif.Proofs.Merge
 import ShootVerif.Proofs.GenState
+import ShootVerif.Proofs.Repair
 import ShootVerif.Gen.Facts
 /-!
 C08 — a type's output is independent of the other types in the same run.
@@ -106,6 +107,40 @@ theorem C08_perm {σ τ ω : Type} (m : Machine σ τ ω) (hind : StateIndep m)
     (generate m disk ts).Perm (generate m disk ts') := by
   rw [C08_generate_solo m hind hst, C08_generate_solo m hind hst]
   exact hp.filterMap _
+
+/-- `new -getset` (every output is fed back): two arrangements of the same types in each of which every type comes
+    after the listed types it embeds give every type the same output – the code at HEAD, no repair needed.
+    Hypotheses: distinct names / output files, a hygienic directory (the file of a listed type declares only that
+    type's interfaces, which are declared nowhere else), and no interface of an unlisted type embeds one of a listed
+    type.  This is region `WF` for permuted lists; a list with an embedder first is F_embedderFirst. -/
+theorem C08_perm_new (fl : NFlags) (hg : fl.getset = true) (ts : List NType) (d : Disk)
+    (hw : WFL ts) (hH : Hyg ts d) (hC : Clo ts d) (hd : DepsFirst ts)
+    (ts' : List NType) (hp : ts'.Perm ts) (hd' : DepsFirst ts') :
+    ∃ F : NType → NOut,
+      generate (newMachine codeToday fl) d ts = ts.map (fun t => (t, F t)) ∧
+      generate (newMachine codeToday fl) d ts' = ts'.map (fun t => (t, F t)) := by
+  refine ⟨fun t => (soloOut noLeaks fl (runDisk noLeaks fl d ts) t).getD default, ?_, ?_⟩
+  · show generate (newMachine noLeaks fl) d ts = _
+    rw [generate_eq_seqRun fl hg]
+    exact seqRun_perm noLeaks fl hw ts d (fun _ h => h) hw.names hH hC hd ts (List.Perm.refl _) hd
+  · show generate (newMachine noLeaks fl) d ts' = _
+    rw [generate_eq_seqRun fl hg]
+    exact seqRun_perm noLeaks fl hw ts d (fun _ h => h) hw.names hH hC hd ts' hp hd'
+
+/-- with the proposed repair (`Repair.depsFirst`: Generate processes embedded listed types first) the order of the
+    `-type` list does not matter at all: every arrangement gives every type the same output, in list order.
+    `SizeConsistent` (inside `RunOK`) only says that the descriptions of the types are consistent with each other. -/
+theorem C08_perm_repaired (fl : NFlags) (hg : fl.getset = true) (rp : Repair) (hrp : rp.depsFirst = true)
+    (ts : List NType) (d : Disk) (h : RunOK ts d) (ts' : List NType) (hp : ts'.Perm ts) :
+    generateR rp (newMachine codeToday fl) .sep d ts = ts.map (fun t => (t, canonOut fl d ts t)) ∧
+    generateR rp (newMachine codeToday fl) .sep d ts' = ts'.map (fun t => (t, canonOut fl d ts t)) ∧
+    (generateR rp (newMachine codeToday fl) .sep d ts').Perm (generateR rp (newMachine codeToday fl) .sep d ts) := by
+  have h1 := generateR_sep fl hg rp hrp ts d h ts (List.Perm.refl _)
+  have h2 := generateR_sep fl hg rp hrp ts d h ts' hp
+  refine ⟨h1, h2, ?_⟩
+  show (generateR rp (newMachine noLeaks fl) .sep d ts').Perm (generateR rp (newMachine noLeaks fl) .sep d ts)
+  rw [h1, h2]
+  exact hp.map _
 
 /-- instances: the machines of this model meet the hypotheses once nothing leaks -/
 theorem C08_indep_instances (fl : NFlags) :
@@ -244,6 +279,19 @@ example : let st := (newStep codeToday {} [] {} wA).1
 /-- and with the model of the code before the fix the same input loses them (what the fix repaired) -/
 example : let st := (newStep codeBeforeFix {} [] {} wA).1
     ((newStep codeBeforeFix {} [] st wB).2.map (·.params.length)) = some 0 := by decide
+
+def wE1 : NType :=
+  { name := "E", file := "t.shootnew.e.go", gs := [("name", true, true)], tree := .field { name := "name", ptype := "string" } .nil }
+def wA1 : NType :=
+  { name := "A", file := "t.shootnew.a.go", gs := [("id", true, true)],
+    tree := .embed "E" "E" false false (.field { name := "name", ptype := "string" } .nil) (.field { name := "id" } .nil) }
+
+/-- `C08_perm_repaired`: the embedder-first list [A, E] over a directory with stale output meets `RunOK` (decidable
+    checks), and with the repair both arrangements give A the embedded EGetter; without it the list order shows -/
+example : hygB [wA1, wE1] [{ name := "t.shootnew.e.go", defs := [("EGetter", {})] }] = true ∧ cloB [wA1, wE1] [] = true ∧
+    (generateR fullRepair (newMachine codeToday { getset := true }) .sep [] [wA1, wE1]).map (·.2.getIfaces) = [["E"], []] ∧
+    (generateR fullRepair (newMachine codeToday { getset := true }) .sep [] [wE1, wA1]).map (·.2.getIfaces) = [[], ["E"]] ∧
+    (generateR noRepair (newMachine codeToday { getset := true }) .sep [] [wA1, wE1]).map (·.2.getIfaces) = [[], []] := by decide
 
 /-- `C08_run_map`: shoot-new destination first, plain pair second: no constructor call is left over -/
 example : (generate (mapMachine codeToday) [] [wMA, wMB]).map (·.2.toCtor) = [some ["ID", "Name"], none] ∧
